@@ -1,6 +1,9 @@
 package model
 
-import "sync"
+import (
+	"slices"
+	"sync"
+)
 
 var uciMux sync.Mutex
 
@@ -29,12 +32,13 @@ func (u *UseCaseInformationDataType) Add(useCase UseCaseSupportType) {
 
 	// only add it if it does not exist yet
 	if index, ok := u.useCaseSupportIndex(*useCase.UseCaseName); ok {
-		// overwrite it instead
+		// overwrite it instead, in a copy: the list may share its array with copies handed out earlier
+		u.UseCaseSupport = slices.Clone(u.UseCaseSupport)
 		u.UseCaseSupport[index] = useCase
 		return
 	}
 
-	u.UseCaseSupport = append(u.UseCaseSupport, useCase)
+	u.UseCaseSupport = append(slices.Clip(u.UseCaseSupport), useCase)
 }
 
 // remove a UseCaseSupportType with a given UseCaseNameType
